@@ -134,6 +134,28 @@ def source_tie(pid):
                 outside_subset=sorted(n for n in seen if expected.get(n) == "outside"))
     return broken, info
 
+def serializer_tie():
+    """T13: translate the serializer functions of the current source and re-check `src_gen_x = gen_x` for each;
+    returns (broken, info)"""
+    rc, out = sh([sys.executable, os.path.join(VERIF, "tools", "t13.py")], env=dict(ENV, VERIF_REPO=REPO))
+    rep = json.load(open(os.path.join(COQ, "gen", "t13_report.json")))
+    broken = [("source-tie", d) for d in rep.get("deviations", [])]
+    ok, mout = coq_make(["gen/SrcSerializeTie.vo"])
+    failing = []
+    if not ok:
+        ok2, mout2 = coq_make(["gen/SrcSerialize.vo", "Proofs/TieTactics.vo"])
+        if not ok2:
+            m = re.search(r'File "([^"]+)", line (\d+)[^\n]*\n((?:.*\n){0,8})', mout2)
+            broken.append(("source-tie", "the serializer translation gen/SrcSerialize.v does not type-check: " + (m.group(0) if m else mout2[-600:]).strip()))
+        else:
+            rc3, dout = sh(["coqc", "-q", "-Q", ".", "TlsModel", "gen/SrcSerializeDiag.v"], cwd=COQ, timeout=3000)
+            failing = re.findall(r"TIEFAIL stie_(\w+)", dout)
+            for nm in failing:
+                broken.append(("source-tie", "`src_%s = %s` is no longer provable: the source text of %s differs in meaning (or shape) from the model's term" % (nm, nm, nm)))
+            if not failing: broken.append(("source-tie", "gen/SrcSerializeTie.v does not compile: " + mout[-600:]))
+    n = len(rep["translated"])
+    return broken, dict(serializer_functions=n, serializer_tied=(n - len(failing)) if ok or failing else 0)
+
 FORBIDDEN = re.compile(r"\b(Admitted|admit|Axiom|Axioms|Parameter|Parameters|Conjecture|Conjectures|Hypothesis|Hypotheses|Variable|Variables|Context|Unset\s+Guard|bypass_check|type-in-type|impredicative-set|Admit\s+Obligations|native_compute)\b")
 def strip_coq_comments(s):
     out, depth, i, n = [], 0, 0, len(s)
